@@ -307,6 +307,34 @@ def check(prog, res, tier):
                 if isinstance(ok, ConstV) and ok.value is True and missing and mode == 'unroll':
                     fails.append(definite('a bitmap naming an unconfigured element is accepted'))
         return fails
+    # coverage: the elements examined are 2..128 (positions 1..127 of the unpacked bits)
+    ob = Ob('C17.c', 'bitmap_check examines every element 2..128 of the first bitmap', func_where(mfi), 'for bit, bit_value in enumerate(bits)',
+            rule='C17.c.coverage')
+    looked = set()
+    blockers = []
+    for p in runs_m.inv:
+        if p.unknowns or p.tainted or p.outcome == 'abandon':
+            blockers.append(p)
+        for kind, truth, data in p.facts:
+            if kind == 'in' and isinstance(data['item'], SeqV) and len(data['item'].segs) == 1 and isinstance(data['item'].segs[0], Num) \
+                    and data['item'].segs[0].val is not None:
+                lo, hi = p.store.bounds(data['item'].segs[0].val)
+                looked.add((lo, hi))
+    if blockers:
+        ob.verdict, ob.detail = UNDECIDED, 'bitmap_check not fully interpreted'
+    elif not looked:
+        ob.verdict, ob.detail = UNDECIDED, 'no configuration lookup observed'
+    else:
+        lo = min(x[0] for x in looked if x[0] is not None) if all(x[0] is not None for x in looked) else None
+        hi = max(x[1] for x in looked if x[1] is not None) if all(x[1] is not None for x in looked) else None
+        if lo is not None and hi is not None and lo <= 2 and hi >= 128:
+            ob.verdict, ob.detail = PROVED, f'looked-up element numbers range over {lo}..{hi}'
+        elif lo is None or hi is None:
+            ob.verdict, ob.detail = UNDECIDED, f'looked-up element numbers are unbounded ({lo}, {hi})'
+        else:
+            ob.verdict, ob.detail, ob.witness = REFUTED, f'only elements {lo}..{hi} are examined: an unconfigured element outside that range is accepted', {'lo': lo, 'hi': hi}
+    res.add(ob)
+
     res.add(runs_m.judge('C17.c', 'bitmap_check numbers list index i as element i+1, skips bit 1 and looks elements up in the packaged bit configuration',
                          func_where(mfi), "str(bit + 1) not in config.config['bit_config']", chk_m))
 
